@@ -448,6 +448,17 @@ DUP_FILE = dict(region='dup_file', file='cmdline/dup.c', scope='void state_dup(s
                 epilogue='#undef hashset\n\t*count_p = count; *size_p = size;\n\t(void)esc_buffer; (void)esc_buffer_alt;')
 
 
+POOL_CLEAN = dict(region='pool_clean_dir', file='cmdline/pool.c', begin='static int clean_dir(const char* dir)', include_begin=True, end=' * Read all the links in a directory tree.',
+                  max_lines=125, expect_loops=1, raw=True)
+
+
+def pool_obs():
+    return [Ob('pool.clean_dir', 'harness/h_pool.c', 'h_pool_clean_dir', inject=[POOL_CLEAN], unwind=7, unwindset=['clean_dir:2', 'clean_dir.0:7'], object_bits=12, small_path=True, timeout=900, mem=8, cost=5, kind='bounded',
+               bound='a pool tree of at most 3 entries in the root, each directory holding at most one link (shape in harness/h_pool.c); directories nested deeper are handled by the same code but are outside the bound, every combination of absent / link / directory',
+               functions=['clean_dir (cmdline/pool.c, whole function extracted verbatim; opendir / readdir / lstat / rmdir / closedir / pathprint / pathslash routed to stubs)'],
+               note='every combination and order of links, foreign files and directories; rmdir failing or not')]
+
+
 def dup_obs():
     D = 'harness/h_dup.c'
     return [Ob('dup.hash_alloc.hs%d' % hs, D, 'h_dup_hash_alloc', inject=[DUP_FILE], defs={'HS': hs}, unwind=50, small_path=True, timeout=900, mem=6, cost=4, replay=False, kind='bounded', bound='files of at most 3 blocks, hash size %d' % hs,
@@ -471,7 +482,7 @@ def c20(tier, seed):
         Ob('esc.shell', E, 'h_esc_shell', ['cmdline/support.c'], unwind=14, timeout=900, mem=6, cost=5, kind='bounded',
            bound='strings of at most 5 bytes, every byte value', functions=['esc_shell / esc_shell_multi (cmdline/support.c)'],
            expect_fail=['esc_shell leaves no TAB or NEWLINE unquoted']),
-    ] + status_obs() + dup_obs()
+    ] + status_obs() + dup_obs() + pool_obs()
 
 
 STATE_Q_REGION = dict(region='state_q', file='cmdline/state.c', begin="} else if (c == 'Q') {", end="} else if (c == 'N') {", include_begin=True, max_lines=150,
